@@ -336,8 +336,25 @@ pub fn roundtrip<B: Backend>(rec: &mut Recorder, st: &mut Stats, cfg: &Cfg) {
         for ci in 0..(if cfg.thorough { 8 } else { 3 }) {
             let cost = small_cost(B::VER, i + ci);
             let k = &w.locals[i % w.locals.len()];
-            if let Some((_, blob)) = pw_wrap::<B, Local>(rec, st, k, pass, Some(cost), None) {
+            if let Some((text, blob)) = pw_wrap::<B, Local>(rec, st, k, pass, Some(cost), None) {
                 pw_unwrap::<B, Local>(rec, st, &blob, pass, json!({"cls":"honest"}));
+                // the parameter block embedded in the blob is the requested cost (spec layout), and params() of the parsed
+                // blob re-wraps another key with the very same parameter block
+                let want = pw_param_block(B::VER, cost);
+                let salt = if B::VER == 1 || B::VER == 3 { 32 } else { 16 };
+                let got = blob.get(salt..salt + want.len()).unwrap_or(&[]).to_vec();
+                let (l, r) = (rec.intern(&got), rec.intern(&want));
+                rec.emit(json!({"ev":"Law","name":"pbkw-parameter-block-is-the-requested-cost","lhs":l,"rhs":r,"be":B::NAME}));
+                let again = catch_unwind(AssertUnwindSafe(|| {
+                    let p = PasswordWrappedKey::<B::V, Local>::from_str(&text)?.params()?;
+                    key_from_bytes::<B::V, Local>(k)?.password_wrap_with_params(b"another", &p).map(|w| w.to_string())
+                }));
+                let got2 = match again {
+                    Ok(Ok(t2)) => body_of(&t2, &hdr_pw::<B, Local>()).and_then(|b| b.get(salt..salt + want.len()).map(|x| x.to_vec())).unwrap_or_default(),
+                    _ => b"<params() or re-wrap failed>".to_vec(),
+                };
+                let l2 = rec.intern(&got2);
+                rec.emit(json!({"ev":"Law","name":"pbkw-params-accessor-preserves-the-block","lhs":l2,"rhs":r,"be":B::NAME}));
             }
             let s = &w.secrets[i % w.secrets.len()];
             if let Some((_, blob)) = pw_wrap::<B, Secret>(rec, st, &s.secret, pass, Some(cost), None) {
